@@ -184,6 +184,10 @@ impl Check for C02 {
             "optional-escape",
         ]
     }
+    fn fuzz_families(&self, _tier: Tier) -> Vec<(&'static str, u64)> {
+        // libFuzzer runs per job (16 jobs), sized from the measured speed of the instrumented build
+        vec![("programs", 4000)]
+    }
     fn families(&self, tier: Tier) -> Vec<Family<'_>> {
         let layouts = tier.pick(3, 5);
         let cfg = GenCfg::default();
